@@ -159,7 +159,7 @@ func frameTransportEffects(c *core.Ctx, R string) {
 				return strings.HasSuffix(key, ".PerMessageDeflate")
 			})
 			hasFrame := nilGuard(true, func(x *core.Unit, e ast.Expr) bool { return strings.HasSuffix(selPath(e), ".WsPreEncodedFrame") })
-			hasOpts := nilGuard(true, func(x *core.Unit, e ast.Expr) bool { return strings.HasSuffix(selPath(e), ".Options") })
+			hasOpts := nilGuard(true, func(x *core.Unit, e ast.Expr) bool { return strings.HasSuffix(selPath(x.Resolve(e)), ".Options") })
 			requireEffects(c, R, u, []effect{
 				{name: "pre-encoded-frame-only-when-present∧no-deflate", match: mName("NewPreparedMessage"), on: []core.Guard{hasOpts, noDeflate, hasFrame}},
 				{name: "otherwise-EncodePacket", match: mName("EncodePacket")},
